@@ -73,8 +73,8 @@ func c17Tokens(c *vrep.Ctx) {
 	if c.Param("alphabet", "") == "classes" {
 		// one representative per Unicode general category a tokenizer might single out: format
 		// characters (soft hyphen, zero width space, BOM), combining mark, digit, other number, currency,
-		// math, modifier and other symbols, line separator, private use, control characters
-		syms = []string{"a", " ", "\u00ad", "\u200b", "\ufeff", "\u0301", "1", "\u00b2", "$", "+", "^", "\u00a9", "\u2028", "\ue000", "\x01", "\t", "-", "\u2060"}
+		// math, modifier and other symbols, line separator, private use, control characters; plus the replacement character written out (valid UTF-8 decoding to utf8.RuneError) and a 4-byte character
+		syms = []string{"a", " ", "\u00ad", "\u200b", "\ufeff", "\u0301", "1", "\u00b2", "$", "+", "^", "\u00a9", "\u2028", "\ue000", "\x01", "\t", "-", "\u2060", "\ufffd", "\U0001F600"}
 		maxLen = c.Pick(4, 5)
 	}
 	c.R.Rule = fmt.Sprintf("ALL strings of <=%d symbols over %q (ASCII, punctuation, 2- and 3-byte runes, Unicode punctuation/space, invalid UTF-8 bytes); oracle: s[Offset:Offset+len(Text)] == Text, strictly increasing non-overlapping offsets, every non-space rune covered; non-trivial = distinct strings with at least two tokens", maxLen, syms)
